@@ -927,6 +927,12 @@ func (c *Conn) advanceFrame() (int, error) {
 
 	if frameType == continuationFrame || frameType == TextMessage || frameType == BinaryMessage {
 
+		if frameType != continuationFrame {
+			// First frame of a new message. The count restarts here and not
+			// only in NextReader, because NextReader also skips the remaining
+			// frames of a message that the application did not read to the end.
+			c.readLength = 0
+		}
 		c.readLength += c.readRemaining
 		// Don't allow readLength to overflow in the presence of a large readRemaining
 		// counter.
